@@ -9,7 +9,7 @@ from .. import gen, impl, oracle, progs, ser, stream
 
 ID = "C01"
 LEVEL = "proof"
-PROPS_MODULE = "SymmModel.Props.C01"
+PROPS_MODULE = "SymmModel.Props.C01All"
 THEOREMS = [
     "SymmModel.C01.transposeA_valid",
     "SymmModel.C01.transposeF_valid",
@@ -52,10 +52,29 @@ THEOREMS = [
     "SymmModel.C01.unfuseAllA_valid",
     "SymmModel.C01.unfuseAllF_valid",
     "SymmModel.C01.Prog.preserves_valid",
-    "SymmModel.C01.Op.preserves_valid"
+    "SymmModel.C01.Op.preserves_valid",
+    "SymmModel.C01.construct_valid",
+    "SymmModel.C01.fromBlocks_valid",
+    "SymmModel.C01.fromDense_valid",
+    "SymmModel.C01.fromFillFn_valid",
+    "SymmModel.C01.reshapeArr_valid",
+    "SymmModel.C01.reshapeArr_valid_of_certificate",
+    "SymmModel.C01.reshapeAdmissible_of_certified",
+    "SymmModel.C01.applyPlan_valid",
+    "SymmModel.C01.einsumA_valid",
+    "SymmModel.C01.einsumF_valid",
+    "SymmModel.C01.fuseCore_concat_valid",
+    "SymmModel.C01.fuseA_concat_valid",
+    "SymmModel.C01.fuseF_concat_valid",
+    "SymmModel.C01.solveA_valid",
+    "SymmModel.C01.svdTruncated_valid",
+    "SymmModel.C01.alignAxes_valid",
+    "SymmModel.C01.OpAll.preserves_valid",
+    "SymmModel.C01.Prog.preserves_valid_ops",
+    "SymmModel.C01.Prog.preserves_valid_all"
 ]
-LEAN_FILES = ["SymmModel.Props.C01", "SymmModel.Proofs.ValidLemmas", "SymmModel.Proofs.ValidOps", "SymmModel.Proofs.ValidTdot", "SymmModel.Proofs.ValidMore", "SymmModel.Proofs.ValidTdotF", "SymmModel.Proofs.ValidLinalg", "SymmModel.Proofs.ValidFuse", "SymmModel.Proofs.ValidFuse2", "SymmModel.Proofs.ValidFuseF", "SymmModel.Proofs.ValidTdotFused", "SymmModel.Proofs.ValidMisc", "SymmModel.Proofs.ValidProg"]
-PLANNED = ["fuse in mode=concat (index and charge parts are mode independent and done)", "einsum", "solve", "svd_truncated / applyCounts (proved in Props/C11 as applyCounts_valid)", "reshape", "align_axes"]
+LEAN_FILES = ["SymmModel.Props.C01", "SymmModel.Proofs.ValidLemmas", "SymmModel.Proofs.ValidOps", "SymmModel.Proofs.ValidTdot", "SymmModel.Proofs.ValidMore", "SymmModel.Proofs.ValidTdotF", "SymmModel.Proofs.ValidLinalg", "SymmModel.Proofs.ValidFuse", "SymmModel.Proofs.ValidFuse2", "SymmModel.Proofs.ValidFuseF", "SymmModel.Proofs.ValidTdotFused", "SymmModel.Proofs.ValidMisc", "SymmModel.Proofs.ValidProg", "SymmModel.Props.C01b", "SymmModel.Props.C01All", "SymmModel.Proofs.ValidMore2Construct", "SymmModel.Proofs.ValidMore2Concat", "SymmModel.Proofs.ValidMore2Einsum", "SymmModel.Proofs.ValidMore2Reshape", "SymmModel.Proofs.ValidMore2Cert", "SymmModel.Proofs.ValidMore2Linalg", "SymmModel.Proofs.ValidMore2Prog"]
+PLANNED = []
 RULE = ("random programs (length <= 6) over every public operation incl. reshape and the decompositions, all "
         "symmetries (Z4 and generic classes included), abelian and fermionic, sparse, pending signs, odd charges; "
         "every array returned along each program is serialised raw (stored blocks, sign table, labels, index and "
